@@ -292,3 +292,90 @@ func init() {
 		return w.errorsNew(fr, "x509: certificate is not valid for the host (idealised)")
 	}
 }
+
+// ---- Ed25519 (idealised like ECDSA; keys are byte strings, the key's identity is its public half) ----
+
+type edRecord struct {
+	pub   []*Term
+	msg   []*Term
+	bytes []*Term
+}
+
+func (w *Worker) edLookup(fr *frame, sig []*Term) *edRecord {
+	for _, rec := range w.edSigs {
+		if len(rec.bytes) != len(sig) {
+			continue
+		}
+		eq := w.T.True
+		for i := range sig {
+			eq = w.T.And(eq, w.T.Eq(sig[i], rec.bytes[i]))
+		}
+		if w.decideBool(eq, fr) {
+			return rec
+		}
+	}
+	return nil
+}
+
+func init() {
+	m := models
+	m[vhcPath+"Ed25519Key"] = func(fr *frame, a []Value) Value {
+		w := fr.w
+		which := w.constIntArg(a[0], "Ed25519Key which")
+		w.assumptions["Ed25519 idealised: Verify(pub,m,sig) iff sig was produced by Sign with the private key whose public half is pub over exactly m"] = true
+		ts := make([]*Term, 64)
+		for i := range ts {
+			v := uint64(0x11*(which+1) + i)
+			if i >= 32 {
+				v = uint64(0xA0 + 7*which + (i - 32))
+			}
+			ts[i] = w.T.Const(8, v&0xff)
+		}
+		return w.bytesToSlice(ts)
+	}
+	m["crypto/ed25519.Sign"] = func(fr *frame, a []Value) Value {
+		w := fr.w
+		priv := byteTerms(w, a[0])
+		if len(priv) != 64 {
+			w.goPanicRuntime(fr, "ed25519: bad private key length")
+		}
+		id := len(w.edSigs)
+		rec := &edRecord{pub: append([]*Term{}, priv[32:]...), msg: byteTerms(w, a[1])}
+		rec.bytes = make([]*Term, 64)
+		for i := range rec.bytes {
+			rec.bytes[i] = w.freshVar(8, fmt.Sprintf("edsig#%d[%d]", id, i))
+		}
+		for _, o := range w.edSigs {
+			eq := w.T.True
+			for i := range o.bytes {
+				eq = w.T.And(eq, w.T.Eq(o.bytes[i], rec.bytes[i]))
+			}
+			w.assume(w.T.Not(eq))
+		}
+		w.edSigs = append(w.edSigs, rec)
+		return w.bytesToSlice(append([]*Term{}, rec.bytes...))
+	}
+	m["crypto/ed25519.Verify"] = func(fr *frame, a []Value) Value {
+		w := fr.w
+		T := w.T
+		pub, msg, sig := byteTerms(w, a[0]), byteTerms(w, a[1]), byteTerms(w, a[2])
+		if len(pub) != 32 {
+			w.goPanicRuntime(fr, "ed25519: bad public key length")
+		}
+		if len(sig) != 64 {
+			return T.False
+		}
+		rec := w.edLookup(fr, sig)
+		if rec == nil || len(rec.msg) != len(msg) {
+			return T.False
+		}
+		eq := T.True
+		for i := range pub {
+			eq = T.And(eq, T.Eq(pub[i], rec.pub[i]))
+		}
+		for i := range msg {
+			eq = T.And(eq, T.Eq(msg[i], rec.msg[i]))
+		}
+		return eq
+	}
+}
